@@ -520,6 +520,8 @@ struct Interp
   std::map<int, sigc::connection*> C;
   std::map<int, sigc::scoped_connection*> K;
   std::map<int, std::vector<std::string>> bodies;
+  // connection name -> the connection object co-owned by the "connect-once" functor living in that very slot
+  std::map<int, std::weak_ptr<sigc::connection>> selfOf;
   std::map<int, long> live; // live F copies per fid
   int depth = 0;
   int maxdepth = 6;
@@ -834,6 +836,7 @@ struct Interp
   // set connection variable Ck to c (new object or assignment)
   void set_conn(int k, const sigc::connection& c)
   {
+    selfOf.erase(k); // the name refers to another slot from now on
     auto old = get(C, k);
     if (old)
       *old = c;
@@ -1254,6 +1257,8 @@ struct Interp
       if (selfc)
         *selfc = c; // the functor now co-owns a handle to its own slot
       set_conn(k, c);
+      if (selfc)
+        selfOf[k] = selfc;
       return "ok";
     }
     if ((op == "emit" || op == "tryemit") && (N(2) || N(3)))
@@ -1384,6 +1389,8 @@ struct Interp
       auto src = get(C, idx(w[2]));
       if (!dst || !src)
         return "dead";
+      if (dst != src)
+        selfOf.erase(idx(w[1]));
       *dst = *src;
       return "ok";
     }
@@ -1393,6 +1400,7 @@ struct Interp
       auto c = get(C, i);
       if (!c)
         return "dead";
+      selfOf.erase(i);
       C.erase(i);
       delete c;
       return "ok";
@@ -1402,7 +1410,20 @@ struct Interp
       auto c = get(C, idx(w[1]));
       if (!c)
         return "dead";
-      c->disconnect();
+      // if the slot's own functor co-owns a connection object to this slot, disconnect THROUGH THAT OBJECT: outside
+      // an emission it is destroyed (with the functor) while its own disconnect() is still running
+      sigc::connection* own = nullptr;
+      auto it = selfOf.find(idx(w[1]));
+      if (it != selfOf.end())
+      {
+        own = it->second.lock().get(); // (no shared_ptr kept: the functor must stay the only owner)
+        if (!own)
+          selfOf.erase(it);
+      }
+      if (own && own->connected())
+        own->disconnect();
+      else
+        c->disconnect();
       return "ok";
     }
     if (op == "connected?" && N(1))
